@@ -5,7 +5,7 @@ tier="$1"; shift
 log=/var/tmp/verif-tier-$tier.log
 for id in "$@"; do
   t0=$(date +%s)
-  timeout 7200 ./check $id $tier > /var/tmp/verif-tier-$tier-$id.out 2>&1; rc=$?
+  timeout ${VERIF_TIER_CAP:-7200} ./check $id $tier > /var/tmp/verif-tier-$tier-$id.out 2>&1; rc=$?
   t1=$(date +%s)
   echo "$id tier=$tier exit=$rc secs=$((t1-t0)) $(grep -c '^VIOLATION' /var/tmp/verif-tier-$tier-$id.out) violations $(grep -c '^INCONCLUSIVE' /var/tmp/verif-tier-$tier-$id.out) inconclusive" >> $log
 done
